@@ -18,7 +18,7 @@ structure VarInfo where
   plain : List TypeRef := []
   plainMax : Nat := 0
   plainMin : Nat := 0
-  deriving Repr, Inhabited
+  deriving Repr, Inhabited, BEq
 
 abbrev InfoF := List VarInfo
 
@@ -126,7 +126,10 @@ def stepVar (G : Grammar) (I : InfoF) (F : List String) (v : Nat) : VarInfo :=
     fields := F.filterMap (fun f =>
       let ts := (acc.fields.find? (·.1 == f)).map (·.2) |>.getD []
       let mx := maxOver (sumBy (stepFieldMax G J f))
-      if ts.isEmpty && mx == 0 then none else some (f, ts, mx, minOver (sumBy (stepFieldMin G J f)))) }
+      -- the entry is kept even when the field does not occur (yet): its minimum must come down from "many",
+      -- not up from 0 (a recursive hidden rule would otherwise stay at "not required" although the field is
+      -- present in every derivation)
+      some (f, ts, mx, minOver (sumBy (stepFieldMin G J f)))) }
 
 /-- iterate from the bottom (no kinds, maximum 0, minimum "many") over the variables in `hidden`;
 the other variables keep the information given in `I0` (the real node-types file) -/
@@ -134,6 +137,6 @@ def iterate (G : Grammar) (F : List String) (hidden : List Nat) : Nat → InfoF 
   | 0, I => I
   | n + 1, I =>
     let I' := (List.range I.length).map (fun v => if hidden.contains v then stepVar G I F v else I.var v)
-    iterate G F hidden n I'
+    if I' == I then I else iterate G F hidden n I'
 
 end TsVerif.C16.Derive
